@@ -3,41 +3,36 @@
    Statements: Conc/PipelineSpec.v; proofs: Conc/PipelineRing_proofs.v, Conc/PipelineLive_proofs.v;
    model: Conc/Pipeline.v (blocking primitives = disabled transitions). *)
 From Coq Require Import List Arith Bool.
-From SKV Require Import Conc.Pipeline Conc.PipelineExplore Conc.PipelineSpec Conc.PipelineParams Conc.PipelineRing_proofs Conc.PipelineLive_proofs.
+From SKV Require Import Conc.Pipeline Conc.PipelineExplore Conc.PipelineSpec Conc.PipelineParams Conc.PipelineRing_proofs
+  Conc.PipelineLive_proofs.
 Import ListNotations.
 
+(* side conditions taken from the sources by tools/gen_params.py (the anchors are the shapes of the repaired
+   failure path — set_failure, wait for the completion with the permit held — and of the flush task's re-check) *)
 Example C17_params_ok :
   PIPE_ANCHORS_OK = true /\ 0 < PIPE_PERMITS /\ PIPE_PERMITS < PIPE_SLOTS /\ 2 <= PIPE_MEMLIMIT_MIN.
 Proof. repeat split; try reflexivity; apply Nat.ltb_lt || apply Nat.leb_le; reflexivity. Qed.
 
-(* N1 as far as it holds: along runs without env.write / env.apply failures the queue never holds more
-   than `permits` batches and enqueue never finds it full (permits < slots from Params) *)
-Theorem C17_no_overflow_partial : no_overflow_partial_stmt.
-Proof. exact no_overflow_partial. Qed.
-(* N1 in full is FALSE for the code as it is: with the crate's slots/permits a run with failed commits
-   ends in the "commit queue overflow" panic (finding queue_overflow_failed_commits) *)
-Theorem C17_no_overflow_refuted : no_overflow_refuted_stmt PIPE_SLOTS PIPE_PERMITS.
-Proof. exact no_overflow_refuted. Qed.
+(* N1 in full: with permits < slots (Params) the queue never holds more than `permits` batches, enqueue never finds
+   it full and no commit() panics — failures of env.write / env.apply included (a failed commit keeps its permit
+   until its batch has been dequeued) *)
+Theorem C17_no_overflow : no_overflow_stmt.
+Proof. exact no_overflow. Qed.
 (* u32 head/tail counters of the code vs the unbounded counters of the model *)
 Theorem C17_wrap_ok_partial : wrap_ok_partial_stmt.
 Proof. exact wrap_ok_partial. Qed.
 (* memory safety observation: dequeue_applied can read the `applied` flag of a freed CommitBatch *)
 Theorem C17_use_after_free_reachable : use_after_free_reachable_stmt PIPE_SLOTS PIPE_PERMITS.
 Proof. exact use_after_free_reachable. Qed.
-
-(* L1 in full is FALSE for the code as it is: the lost flush wake-up (finding flush_wakeup_lost_hang): a run of
-   4 committers ends with a commit() blocked in the stall check and no enabled step of the system *)
-Theorem C17_deadlock_free_refuted : deadlock_free_refuted_stmt PIPE_SLOTS PIPE_PERMITS PIPE_MEMLIMIT_MIN.
-Proof. exact deadlock_free_refuted. Qed.
-(* L1 as far as it holds, whole system (rotation, stall protocol, flush and level tasks, close(), failures of
-   env.write / env.apply, conflicts, overflow): whenever a commit() or close() is under way and the flush task
-   is not starved of its wake-up, some step of the system is enabled (non-empty batches; L0 stall = environment) *)
-Theorem C17_deadlock_free_partial : deadlock_free_partial_nonempty_stmt.
-Proof. exact deadlock_free_partial_nonempty. Qed.
-(* L1 for the pipeline alone (no rotation, no close, no failures): never a deadlock *)
-Theorem C17_deadlock_free_core : deadlock_free_core_partial_stmt.
-Proof. exact deadlock_free_core_partial. Qed.
-(* L2: a measure into (nat, <) strictly decreases on every step of the system itself (environment labels and
-   busy-wait iterations excluded): finitely many commits all return, close() returns *)
+(* L1, whole system (rotation, stall protocol, flush and level tasks with the skip-if-running wake-up and the flush
+   task's re-check, close(), failures of env.write / env.apply, conflicts): whenever a commit() or close() is under
+   way some step of the system is enabled (non-empty batches; the L0 stall is environment) *)
+Theorem C17_deadlock_free : deadlock_free_stmt.
+Proof. exact deadlock_free. Qed.
+(* L1 for the pipeline alone (no rotation, no close, no failures): corollary *)
+Theorem C17_deadlock_free_core : deadlock_free_core_stmt.
+Proof. exact deadlock_free_core. Qed.
+(* L2: a measure into a well-founded order strictly decreases on every step of the system itself (environment
+   labels and busy-wait iterations excluded): with L1, finitely many commits all return and close() returns *)
 Theorem C17_terminates : terminates_stmt.
 Proof. exact terminates. Qed.
